@@ -25,7 +25,7 @@ SCRIPT_HEADER = ("from onnxscript import script\n"
 SCRIPT_STRATA = [
     "straight", "straight_ops", "literals", "multi_output", "if", "if_nested", "for_tensor_n", "for_literal_n", "for_uses_index",
     "while", "for_break", "if_in_for", "for_in_if", "for_in_for", "while_in_if", "if_in_while", "two_loops", "if_two_outputs",
-    "calls_function", "attr_param", "attr_param_in_control_flow",
+    "calls_function", "attr_param", "attr_param_in_control_flow", "loop_shifted_state",
 ]
 
 _UN = ["op.Relu({a})", "op.Neg({a})", "op.Abs({a})", "op.Sigmoid({a})", "op.Tanh({a})", "op.Identity({a})",
@@ -234,6 +234,22 @@ def script_program(stratum, rnd):
         else:
             lines += ["    for i in range(2):", "        acc = op.LeakyRelu(acc, alpha=alpha) + 1.0"]
         lines.append("    acc = op.Cast(op.Cast(acc, to=7) + k, to=1)")
+        lines.append(g.update(acc, pool, ind))
+    elif stratum == "loop_shifted_state":
+        # a body that reads a loop-carried value AFTER the node that computes its next value (two shifted state variables,
+        # or old-vs-new difference): ONNX bodies hand all next values over at the end of the iteration, Python assigns in order
+        form = rnd.choice(["fib_for", "fib_for_n", "delta_for", "fib_while"])
+        lines.append(f"    prev = op.Identity({rnd.choice(pool)})")
+        if form in ("fib_for", "fib_for_n"):
+            if form == "fib_for_n":
+                uses_n = True
+            lines += [f"    for i in range({'n' if form == 'fib_for_n' else rnd.choice([2, 3, 4])}):",
+                      f"        nxt = acc * {rnd.choice(['0.5', '0.25', '-0.5'])} + prev", "        prev = acc", "        acc = nxt"]
+        elif form == "delta_for":
+            lines += [f"    for i in range({rnd.choice([2, 3])}):", "        new = op.Tanh(acc) + prev", "        prev = new - acc", "        acc = new"]
+        else:
+            lines += ["    k = op.Constant(value_int=0)", "    go = k < 3", "    while go:", "        nxt = acc * 0.5 - prev", "        prev = acc",
+                      "        acc = nxt", "        k = k + 1", "        go = k < 3"]
         lines.append(g.update(acc, pool, ind))
     else:
         raise ValueError(stratum)
